@@ -20,6 +20,8 @@ From PV.Model Require Import Checksums Fid.
 From PV.Proofs Require Import ChecksumsProofs ChecksumsArithProofs FidProofs.
 From PV.Model Require Udf.
 From PV.Proofs Require UdfProofs UdfFidProofs UdfFeProofs.
+From PV.Model Require UdfVds UdfVdsBook.
+From PV.Proofs Require CodecProofs UdfVdsProofs UdfVdsDescProofs UdfVdsLvProofs.
 Import ListNotations.
 Local Open Scope Z_scope.
 
@@ -114,3 +116,42 @@ Theorem C10_file_entry_verifies : forall e b, Udf.fe_record e = Some b -> UdfFeP
   (Udf.tg_crclen (Udf.fe_tag e) < 0 \/ Udf.tg_crclen (Udf.fe_tag e) <= zlen b - 16) ->
   Udf.verify_tag b = true.
 Proof. exact UdfFeProofs.fe_record_verifies. Qed.
+
+(* ---- volume-level descriptors: Model/UdfVds.v (anchors, volume descriptor sequence, integrity, file set; tied by
+   vdleaf.py on the descriptors of every generated UDF image) ---------------------------------------------------- *)
+Section UdfVdsStatements.
+Import Prim Codec CodecProofs Checksums Udf UdfVds UdfVdsBook UdfProofs UdfVdsProofs UdfVdsLvProofs.
+
+(* every volume-level descriptor: 512 bytes, verifies for an independent checker, parses back *)
+Theorem C10_descriptor_sound : forall P ident (wf : P -> Prop) body pb, body_spec wf body pb ->
+  forall t p r, wf p -> desc_record t (body p) = Some r -> tag_wf ident t ->
+    length r = 512%nat /\ verify_tag r = true /\
+    forall rest ext, desc_parse ident pb (r ++ rest) ext = Some (retag t ext (crclen_rec t), p).
+Proof. exact (@UdfVdsProofs.desc_sound). Qed.
+
+Theorem C10_anchor_designates_the_sequences : forall loc main reserve, u32 loc -> u32 main -> u32 reserve ->
+  exists r, anchor_record (anchor_set_extent_location anchor_new loc main reserve) = Some r /\
+    length r = 512%nat /\ verify_tag r = true /\
+    slice 16 32 r = le32 32768 ++ le32 main ++ le32 32768 ++ le32 reserve /\
+    forall rest, anchor_parse (r ++ rest) loc =
+      Some (mk_utag 2 2 0 loc 496, mk_anchor (mk_extent_ad 32768 main) (mk_extent_ad 32768 reserve)).
+Proof. exact UdfVdsProofs.anchor_designates. Qed.
+
+(* partition length (main and reserve copies) and the integrity descriptor's size table move together for ANY
+   sequence of accounting updates; the file and directory counters are exactly the net number of events *)
+Theorem C10_partition_and_integrity_sizes_in_step : forall evs s s', sizes_run s evs = Some s' -> sizes_synced s ->
+  sizes_synced s' /\ tl (uz_size_tables s') = tl (uz_size_tables s).
+Proof. exact UdfVdsLvProofs.sizes_sync. Qed.
+
+Theorem C10_integrity_counters : forall evs u,
+  lu_num_files (lvimpl_run u evs) = lu_num_files u + net_files evs /\
+  lu_num_dirs (lvimpl_run u evs) = lu_num_dirs u + net_dirs evs /\
+  lu_impl_id (lvimpl_run u evs) = lu_impl_id u /\ lu_impl_use (lvimpl_run u evs) = lu_impl_use u.
+Proof. exact UdfVdsLvProofs.counters_invariant. Qed.
+
+(* false of the faithful model (12 partition maps fill the 72-byte table; parse tests >= 72): foreign images only *)
+Theorem C10_lvd_roundtrip_refuted : exists d r,
+  lvd_wf0 d /\ zlen (lvd_all_partmaps d) = 72 /\ lvd_record (tag_new 6 0, d) = Some r /\
+  verify_tag r = true /\ lvd_parse r 0 = None.
+Proof. exact UdfVdsLvProofs.lvd_roundtrip_refuted. Qed.
+End UdfVdsStatements.
